@@ -109,6 +109,7 @@ __CPROVER_ensures((__CPROVER_return_value > 0 && out_toc != NULL) ==> *out_toc =
   __CPROVER_loop_invariant(__CPROVER_same_object(data, data0) && PO(data) >= PO(data0) + 2) \
   __CPROVER_loop_invariant(pad >= 0 && len >= -254 && len <= verif_len0 - 2) \
   __CPROVER_loop_invariant((long long)len + pad + (PO(data) - PO(data0)) == (long long)verif_len0) \
+  __CPROVER_loop_invariant((long long)pad <= 254 * (PO(data) - PO(data0) - 2))   /* each length byte adds at most 254: pad+tmp cannot overflow */ \
   __CPROVER_decreases(len)
 #endif
 
